@@ -712,7 +712,7 @@ package table
 //@   requires m != nil && m.store != nil && m.nh != nil && m.log != nil && reader != nil
 //@   use keySpace(name, name)
 //@   before (*Manager).readIntoTable assert [C07.switch.fresh] id == recoveryID && recoveryID == parseU(m.store.wVal[seqKey]) && m.store.nwk[seqKey] == old(m.store.nwk[seqKey]) + 1
-//@   ensures [C07.switch.cas] err == nil ==> noSlash(name) && !m.store.wDel[tkey(name)] && m.store.wVer[tkey(name)] == m.store.rPair[tkey(name)].Ver && m.store.rHas[tkey(name)] && tableOf(bytesOf(m.store.wVal[tkey(name)])).ClusterID == parseU(m.store.wVal[seqKey]) && tableOf(bytesOf(m.store.wVal[tkey(name)])).RecoverID == 0 && tableOf(bytesOf(m.store.wVal[tkey(name)])).Name == tableOf(bytesOf(m.store.rPair[tkey(name)].Value)).Name
+//@   ensures [C07.switch.cas+C14] err == nil ==> noSlash(name) && !m.store.wDel[tkey(name)] && m.store.wVer[tkey(name)] == m.store.rPair[tkey(name)].Ver && m.store.rHas[tkey(name)] && tableOf(bytesOf(m.store.wVal[tkey(name)])).ClusterID == parseU(m.store.wVal[seqKey]) && tableOf(bytesOf(m.store.wVal[tkey(name)])).RecoverID == 0 && tableOf(bytesOf(m.store.wVal[tkey(name)])).Name == tableOf(bytesOf(m.store.rPair[tkey(name)].Value)).Name
 //@   ensures [C07.switch.all] err == nil ==> m.nh.nelem - old(m.nh.nelem) == reader.nrec - old(reader.nrec)
 //@   modifies m.store.rHas, m.store.rPair, m.store.nwk, m.store.wVal, m.store.wVer, m.store.wDel, m.store.wPrevHas, m.store.wPrev, reader.nrec, m.nh.lastRes, m.nh.lastErr, m.nh.lastCmd, m.nh.nelem, m.nh.nseq, m.nh.leaderOf
 
